@@ -472,9 +472,14 @@ def MState.step (m : MState) (st : IStep) : MState :=
       | .ok => m.onRequest c r st.ds .ok
       | .connError =>
         -- a participant's request that the protocol answers or ignores must not end the connection: only a
-        -- malformed frame or a refused receipt does
+        -- malformed frame does
         let m := match m.whereIs c, r with
-          | some _, .receipt .. | some _, .undecodable .. => m
+          | _, .receipt .. =>
+            -- the submitter of a receipt always gets its answer: a refusal that ends the connection is closed over before
+            -- it is written
+            let m := m.bad "C19" "refusal-ends-connection" (flat s!"{reprStr r}")
+            if (m.whereIs c).isSome then m.bad "C04" "request-ends-connection" (flat s!"{reprStr r}") else m
+          | some _, .undecodable .. => m
           | some _, .updatePose .. =>
             ((m.bad "C04" "request-ends-connection" (flat s!"{reprStr r}")).bad "C05" "request-ends-connection" (flat s!"{reprStr r}")).bad "C11" "request-ends-connection" (flat s!"{reprStr r}")
           | some _, .entityDelete .. | some _, .assetAdd .. =>
